@@ -260,6 +260,34 @@ example : (run Cfg.repaired { d := dStep }
      .redefine dInt, .value true (.num (3 / 10) false), .advance 1000, .value true (.num 7 true)]).calls =
     [.num (3 / 5) false, .num 7 true] := by decide +kernel
 
+/-! ### 6a. driver-computed attributes: what the driver declares, once in force, is the definition that decides -/
+
+/-- **declared_attributes_in_force.** A port whose driver computes its attributes (write-protect switch, resolution,
+range): when what the driver declares comes into force — the first polling pass after the change, which drops the
+attribute cache of every enabled port — while no sequence is installed, nothing but the definition changes (the call log,
+the clock stay), and from then on a value request is judged by the NEW definition `d`, whatever the old one was: it is
+accepted iff the port exists, `d` is enabled and writable and the value is in the domain of `d`. (The harness sends the
+model `redefine d` at exactly that polling pass.) -/
+theorem declared_attributes_in_force (st : PState) (d : PortDef) (known : Bool) (v : JVal) (hp : st.pend = [])
+    (hwf : WF d) (hj : v.isJson) (htw : performWrite d (adapt Cfg.repaired d v) ≠ none) :
+    step Cfg.repaired st (.redefine d) = ({ st with d := d }, .ok) ∧
+    ((step Cfg.repaired (step Cfg.repaired st (.redefine d)).1 (.value known v)).2 = .ok ↔
+      known = true ∧ d.enabled = true ∧ d.writable = true ∧ InDomain d v) := by
+  have h1 : step Cfg.repaired st (.redefine d) = ({ st with d := d }, .ok) := by
+    simp [step, handle, flush, hp]
+  refine ⟨h1, ?_⟩
+  rw [h1]
+  exact accept_iff_in_domain { st with d := d } known v hwf hj htw
+
+-- non-vacuity: the step-0.1 port, unlocked, has accepted 0.3; the driver then declares it read-only: 0.3 is refused with
+-- read-only-port and the driver sees nothing more; declared writable again, 0.3 is accepted again
+example : ({ d := dStep, now := 7, calls := [.num (3 / 5) false] } : PState).pend = [] := rfl
+example : (step Cfg.repaired (step Cfg.repaired { d := dStep } (.redefine { dStep with writable := false })).1
+    (.value true (.num (3 / 10) false))).2 = .err .readOnlyPort := by decide +kernel
+example : (run Cfg.repaired { d := dStep }
+    [.value true (.num (3 / 10) false), .redefine { dStep with writable := false }, .value true (.num (3 / 10) false),
+     .redefine dStep, .value true (.num (1 / 2) false)]).calls = [.num (3 / 5) false, .num 1 false] := by decide +kernel
+
 /-! ### 6b. overlapping requests: exactly one driver call per accepted request -/
 
 /-- **one_call_per_accepted_request.** A burst of value requests (however they overlap: the model serves them in the
